@@ -460,16 +460,16 @@ func c01Seq(tokens []string, conc int, b Bounds) *Scenario {
 	}
 }
 
-var c01Alphabet = []string{"c", "f", "n", "[cc]", "[cn]", "[nc]", "[nn]", "[n]", "[c]", "u", "v", "[cx]", "[yc]", "x", "[cd]", "i", "z", "[zz]", "[cv]", "[vn]"}
+var c01Alphabet = []string{"c", "f", "n", "[cc]", "[cn]", "[nc]", "[nn]", "[n]", "[c]", "u", "v", "[cx]", "[yc]", "x", "[cd]", "i", "z", "[zz]", "[cv]", "[vn]", "[xcc]", "[ucn]", "[ync]"}
 
 func c01Scenarios(tier string) []*Scenario {
 	var out []*Scenario
-	running := map[string]bool{"z": true, "[zz]": true, "c": true, "f": true, "n": true, "[cc]": true, "[cn]": true, "[nc]": true, "[nn]": true, "[n]": true, "[c]": true, "[cx]": true, "[yc]": true, "[cd]": true, "[cv]": true, "[vn]": true}
+	running := map[string]bool{"z": true, "[zz]": true, "c": true, "f": true, "n": true, "[cc]": true, "[cn]": true, "[nc]": true, "[nn]": true, "[n]": true, "[c]": true, "[cx]": true, "[yc]": true, "[cd]": true, "[cv]": true, "[vn]": true, "[xcc]": true, "[ucn]": true, "[ync]": true}
 	if tier == "quick" {
 		for _, a := range c01Alphabet {
 			out = append(out, c01Seq([]string{a}, 2, Bounds{2, -1, 1}))
 		}
-		for _, a := range []string{"c", "n", "[cn]", "[nc]", "[cc]", "z", "[cv]"} {
+		for _, a := range []string{"c", "n", "[cn]", "[nc]", "[cc]", "z", "[cv]", "[ucn]"} {
 			for _, b := range c01Alphabet {
 				out = append(out, c01Seq([]string{a, b}, 2, Bounds{1, -1, 0}))
 			}
